@@ -70,7 +70,9 @@ Requests ==
 Applicable == {r \in Requests : CredExists(r.u, r.c)}
 
 (* ---- history operations ------------------------------------------------------- *)
-Op(o) == hist' = Append(hist, o)
+(* every operation also records what an RTSP connection of u1 that was opened (and authenticated) EARLIER must be
+   answered when it asks again right after the operation: "decisions use the rights as last saved"          *)
+Op(o) == hist' = Append(hist, o @@ [mid |-> [p \in PullPaths |-> (u1' # None /\ Covers(Eff(u1'.admin, u1'.pull), p))]])
 Save(admin, pull, push) == /\ u1' = U(admin, pull, push) /\ UNCHANGED <<acc, old>>
                            /\ Op([op |-> "save", admin |-> admin, pull |-> pull, push |-> push])
 Del == u1 # None /\ u1' = None /\ UNCHANGED <<acc, old>> /\ Op([op |-> "del", admin |-> FALSE, pull |-> "", push |-> ""])
